@@ -16,6 +16,12 @@ Monitors (all reads/migrations run under a deterministic step budget; exhausting
                               entered) are re-played with their leaf values perturbed type-preservingly through the remaining
                               converter chain: must terminate without error in a schema-valid current flow that survives
                               save -> load
+  old_websocket_history_pairs_own_handshake
+                              files in format 10/11 built by the harness's own old-format writer with several websocket
+                              connections (handshake flows H_i, websocket flows W_i) in interleaved orders (H1 H2 W2 W1, H1 W1 H2 W2,
+                              ...), missing handshakes, a re-used handshake id, a second W for one handshake, unrelated flows in
+                              between: every flow loads to its exact expected state; each W sits on its OWN handshake (matched
+                              by id), the documented http://unknown/ fallback only when its handshake is not earlier in the file
   unknown_version_rejected    states with version = current + k (and other unsupported versions) are rejected with
                               FlowReadException whose message names the version, and for newer versions asks to update
 """
@@ -43,14 +49,15 @@ PROPERTY = "C38"
 LEVEL = "exploration"
 BUDGET = {"quick": (40_000, 12), "thorough": (3_000_000, 150)}
 WORKERS = {"quick": 2, "thorough": 16}
-REQUIRED = ["shipped_dump_loads", "current_state_unchanged", "downgraded_state_migrates", "perturbed_history_migrates", "unknown_version_rejected", "migrated_flow_schema_valid", "migrated_flow_resaves"]
+REQUIRED = ["shipped_dump_loads", "current_state_unchanged", "downgraded_state_migrates", "perturbed_history_migrates", "unknown_version_rejected", "old_websocket_history_pairs_own_handshake", "migrated_flow_schema_valid", "migrated_flow_resaves"]
 ENGINE = "direct"
 TECHNIQUE = "differential against reference backward converters + schema validity and save/load round trip of migrated flows; converter-chain replay of perturbed recorded states"
 RULE = (
     "cases: (dump) each shipped dump file once per worker; (identity) a random current flow; (downgrade) a random current flow converted backwards to a "
     "random format 20..10 by the reference converters; (perturb) a state recorded on entry to a random converter while the shipped dumps migrate, with "
     "leaf values replaced type-preservingly (bytes/str/float/int/bool; None toggled only where the dumps show both None and a value at that path; "
-    "version, type, ids, certificates, websocket linkage metadata and enumerated literals are kept); (future) a current state relabelled with an "
+    "version, type, ids, certificates, websocket linkage metadata and enumerated literals are kept); (ws-history) 1-4 old-format websocket connections as handshake + websocket flows in a random "
+    "interleaving (plus missing handshake / re-used id / second websocket flow / unrelated flow variants); (future) a current state relabelled with an "
     "unsupported version. Signature = (case family, source version, flow kind / dump name, coarse features). Non-trivial: every case except identity of a flow without optional fields"
 )
 ASSUMPTIONS = [
@@ -263,6 +270,136 @@ def case_downgrade(ctx):
     ctx.case(("downgrade", tgt, G.features(f)), True, {"case": "downgrade", "format": tgt, "kind": kind})
 
 
+# --------------------------------------------------------------------------------------------- old-format websocket histories
+
+def _plain_http(r):
+    """Current-format state of a plain HTTP flow usable as old-format source (no websocket, no backup, clean metadata)."""
+    while True:
+        f = G.gen_flow(r, "http", size="small")
+        st = T.norm(f.get_state())
+        if D.applicable(st, 10):
+            return st
+
+
+def _old_messages(r):
+    out = []
+    for _ in range(r.choice([0, 1, 2, 4])):
+        text = r.random() < 0.5
+        content = r.choice(["hello", "", "日本語 🍇", G.g_str(r)]) if text else G.g_bytes(r)
+        out.append([1 if text else 2, r.random() < 0.5, content, r.choice([1612375501, 1612375501.25, 946681200.5]), r.random() < 0.2])
+    return out
+
+
+def case_ws_history(ctx):
+    """An old-format (<= 11) file with several websocket connections: handshake flows H_i and websocket flows W_i in an
+    interleaved order, optionally with missing handshakes, a re-used handshake id, a second W for the same handshake and
+    unrelated flows in between.  Each migrated websocket flow must sit on its OWN handshake."""
+    r = ctx.rng
+    tgt = r.choice(D.WS_TARGETS)
+    n = r.choice([1, 2, 2, 3, 4])
+    conns = []
+    for i in range(n):
+        hs = _plain_http(r)
+        hs["response"] = hs["response"] or T.norm(G.gen_response(r, True).get_state())
+        hs["response"]["status_code"] = 101
+        hs["request"]["path"] = b"/ws/%d" % i
+        old_h, exp_h = D.old_handshake(hs, tgt)
+        old_w, exp_wb = D.old_websocket_flow(_plain_http(r), tgt, hs["id"], _old_messages(r), r.choice(["client", "server"]), r.choice([1000, 1001, 1005, 1006, 4000]), r.choice(["", "bye", G.g_str(r)]))
+        conns.append({"i": i, "old_h": old_h, "exp_h": exp_h, "old_w": old_w, "exp_wb": exp_wb, "missing": r.random() < 0.15})
+    # interleaving: every W_i after its H_i; shapes such as H1 H2 W2 W1, H1 W1 H2 W2, H1 H2 W1 W2 all arise
+    events = []
+    order = [c for c in conns]
+    r.shuffle(order)
+    pend = []
+    todo = list(order)
+    while todo or pend:
+        if todo and (not pend or r.random() < 0.55):
+            c = todo.pop()
+            if not c["missing"]:
+                events.append(("H", c))
+            pend.append(c)
+        else:
+            c = pend.pop(r.randrange(len(pend)))
+            events.append(("W", c))
+    feats = set()
+    if any(c["missing"] for c in conns):
+        feats.add("missing-handshake")
+    if n >= 2 and r.random() < 0.15:
+        # a second, different handshake flow that re-uses the id of an earlier one, placed right before that connection's W
+        c = r.choice([c for c in conns])
+        hs2 = _plain_http(r)
+        hs2["id"] = c["exp_h"]["id"]
+        hs2["request"]["path"] = b"/ws/reused-id"
+        old_h2, exp_h2 = D.old_handshake(hs2, tgt)
+        k = next(j for j, e in enumerate(events) if e[0] == "W" and e[1] is c)
+        events.insert(k, ("H2", {"old_h": old_h2, "exp_h": exp_h2, "i": c["i"]}))
+        feats.add("reused-handshake-id")
+    if r.random() < 0.15:
+        c = r.choice(conns)
+        k = next(j for j, e in enumerate(events) if e[0] == "W" and e[1] is c)
+        events.insert(r.randint(k + 1, len(events)), ("W", c))  # a second websocket flow naming the same handshake
+        feats.add("second-ws-for-handshake")
+    if r.random() < 0.4:
+        ps = _plain_http(r)
+        old_p, exp_p = D.downgrade(ps, tgt)
+        events.insert(r.randint(0, len(events)), ("P", {"old": old_p, "exp": exp_p}))
+        feats.add("unrelated-flow")
+    # expected flows, by an independent model of the pairing
+    avail: dict = {}
+    consumed = set()
+    records, expected, labels = [], [], []
+    for kind, c in events:
+        if kind in ("H", "H2"):
+            records.append(c["old_h"])
+            avail[c["exp_h"]["id"]] = c["exp_h"]
+            expected.append([c["exp_h"]])
+            labels.append(f"{kind}{c['i']}")
+        elif kind == "P":
+            records.append(c["old"])
+            expected.append([c["exp"]])
+            labels.append("P")
+        else:
+            hid = c["old_w"]["metadata"]["websocket_handshake"]
+            records.append(c["old_w"])
+            labels.append(f"W{c['i']}")
+            fb = D.expected_fallback(c["exp_wb"], c["old_w"])
+            if hid in avail and hid not in consumed:
+                expected.append([D.expected_merged(avail[hid], c["old_w"])])
+                consumed.add(hid)
+            elif hid in avail:
+                # handshake already used by an earlier websocket flow: mitmproxy documents the fallback; either is accepted
+                expected.append([fb, D.expected_merged(avail[hid], c["old_w"])])
+            else:
+                expected.append([fb])
+    shape = " ".join(labels)
+    overlapping = any(labels[j][0] == "H" and labels[j + 1][0] == "H" for j in range(len(labels) - 1))
+    ctx.count("old_websocket_history_pairs_own_handshake")
+    ctx.seen("ws_history_shapes", shape)
+    data = b"".join(T.encode(x) for x in records)
+    flows, err, tripped = guarded_read(data)
+    wit = {"format": tgt, "file_order": shape, "features": sorted(feats)}
+    if tripped:
+        ctx.violation("migration-does-not-terminate", {**wit, "steps": str(err)})
+    elif err is not None:
+        src = records[len(flows)] if len(flows) < len(records) else None
+        ctx.violation(f"old-websocket-history-fails-to-load:{type(err).__name__}@{exc_site(err.__cause__ or err)}", {**wit, "exc": short(repr(err)), "loaded_before": len(flows)}, classify(src))
+    elif len(flows) != len(records):
+        ctx.violation("old-websocket-history-flow-count", {**wit, "records": len(records), "flows": len(flows)})
+    else:
+        for j, (f, exps) in enumerate(zip(flows, expected)):
+            got = check_valid_and_resaves(ctx, f, f"ws-history {shape} [{j}]", records[j])
+            if got is None:
+                break
+            if not any(T.same(got, e) for e in exps):
+                own = exps[-1] if len(exps) > 1 else exps[0]
+                on_fallback = got.get("request", {}).get("host") == "unknown" and labels[j][0] == "W" and own["request"]["host"] != "unknown"
+                ctx.violation("websocket-flow-not-on-its-own-handshake" if labels[j][0] == "W" else "migrated-state-differs-from-original",
+                              {**wit, "flow": j, "label": labels[j], "landed_on_fallback_request": on_fallback, "diff": T.diff(own, got)})
+                break
+    ctx.case(("ws-history", tgt, min(n, 3), overlapping, tuple(sorted(feats)), shape if len(labels) <= 5 else len(labels)), True,
+             {"case": "ws-history", "format": tgt, "file_order": shape, "features": sorted(feats)})
+
+
 HOSTS_S = ["example.com", "127.0.0.1", "::1", "localhost", "a.b.c.example", "xn--bcher-kva.example", "10.0.0.1", "sub.domain.test"]
 KEEP = {"version", "type", "id", "mode", "proxy_mode", "transport_protocol", "cert", "clientcert", "mitmcert", "first_line_format", "form_in", "form_out",
         "is_replay", "close_sender", "websocket", "websocket_handshake", "duplicated", "client_key", "server_accept", "state", "use_ipv6"}
@@ -401,7 +538,11 @@ def case_future(ctx):
 def run(ctx):
     rec = Recorder()
     try:
-        phase_dumps(ctx, rec)
+        # set-up that consumes real-code output: any exception here is evidence about the code under test, not a harness error
+        try:
+            phase_dumps(ctx, rec)
+        except Exception as e:  # noqa
+            ctx.violation(f"shipped-dump-phase-raises:{type(e).__name__}@{exc_site(e)}", {"exc": short(repr(e))})
         typesat: dict = {}
         # formats >= 12 always stored WebSocket message contents as bytes; a str there is only the trace of converting the
         # format-7 dump (reported above on the dump itself) and not a shape a format >= 12 writer produced
@@ -416,16 +557,18 @@ def run(ctx):
                 for path, v in leaf_paths(s):
                     typesat.setdefault((k, generic(path)), set()).add(type(v).__name__)
         if not rec.pool:
-            raise core.Inconclusive("no intermediate states recorded from the shipped dumps")
+            ctx.violation("no-converter-entered-while-loading-shipped-dumps", {"dumps": [os.path.basename(p) for p in dump_files()]})
         for i in ctx.cases():
             m = i % 8
             if m in (0,):
-                case_identity(ctx)
-            elif m in (1, 2, 3):
-                case_downgrade(ctx)
-            elif m in (4, 5, 6):
-                case_perturb(ctx, rec, typesat)
+                ctx.guard(case_identity, ctx, what="identity")
+            elif m in (1, 2):
+                ctx.guard(case_downgrade, ctx, what="downgrade")
+            elif m == 3:
+                ctx.guard(case_ws_history, ctx, what="ws-history")
+            elif m in (4, 5, 6) and rec.pool:
+                ctx.guard(case_perturb, ctx, rec, typesat, what="perturb")
             else:
-                case_future(ctx)
+                ctx.guard(case_future, ctx, what="future")
     finally:
         rec.restore()
